@@ -202,9 +202,16 @@ def opd_task(args):
             cls = {c.__name__: c for c in G.sample_classes()}[lens_spec[1]]
             optic = G.quiet(cls)
             name = lens_spec[1]
+        elif lens_spec[0] == "directed":
+            from harness import diffrec
+            optic = G.quiet(getattr(diffrec, lens_spec[1]))
+            name = lens_spec[1]
         else:
+            # (every second random lens carries physical apertures: clipped rays keep their OPD - they
+            # are samples of the wavefront like the others)
             optic, meta = G.random_lens(random.Random(lens_spec[1]), kinds=("standard", "standard", "even_asphere"),
-                                        nsurf=random.Random(lens_spec[1]).randint(2, 6))
+                                        nsurf=random.Random(lens_spec[1]).randint(2, 6),
+                                        apertures=(lens_spec[1] % 2 == 1))
             name = "random seed %d" % lens_spec[1]
     except Exception as ex:
         return {"skip": "lens could not be built", "detail": "%s: %s" % (type(ex).__name__, ex), "lens": str(lens_spec)}
